@@ -87,7 +87,12 @@ def plan(tier):
         tgt = min(shards, key=lambda s: s["n"])
         tgt["items"].append(item)
         tgt["n"] += n
-    return [s for s in shards if s["items"]]
+    out = [s for s in shards if s["items"]]
+    # what the two writers put into the file for a controller equals its stored value
+    names = sorted(specmodel.load())
+    for i in range(4):
+        out.append({"kind": "file_cvals", "types": names[i::4], "mapped": i == 0})
+    return out
 
 
 def expected_raw(kind, lo, v):
@@ -271,9 +276,112 @@ def run_axis(ctx, classes, ax, seg):
     ctx.sample({"axis": ent, "kind": kind, "range": [lo, hi], "segment": [start, stop, step], "points": n})
 
 
+def cvals_in(data, in_project):
+    import struct
+
+    from vlib import chunktools
+
+    chunks = chunktools.parse(data)
+    if in_project:
+        head, pats, mods, tail = chunktools.module_sections(chunks)
+        chunks = mods[-1]
+    return [struct.unpack("<i", pl)[0] for cid, pl in chunks if cid == b"CVAL"]
+
+
+def run_file_cvals(ctx, desc):
+    """The stored value of a controller as both writers (Synth / Project) put it into the file, and
+    what loading that file gives back, for the ends and the middle of every range under every unit;
+    and for MetaModule user-defined controllers mapped onto embedded controllers while holding a
+    value that differs from the embedded controller's (as after loading a file)."""
+    from io import BytesIO
+
+    import rv.modules as m
+    from rv.api import Project, Synth, read_sunvox_file
+
+    spec = specmodel.load()
+    classes = dict(m.MODULE_CLASSES)
+    for name in desc["types"]:
+        mt = spec[name]
+        if name == "Output":
+            continue
+        cls = classes[mt.mtype]
+        for ordinal, c in enumerate(mt.controllers):
+            variants = []
+            if c.kind in ("range", "compact", "no_offset"):
+                variants = [(None, None, c.min, c.max, c.kind)]
+            elif c.kind == "dependent":
+                variants = [(c.depends_on, u, lo, hi, "range") for u, (lo, hi) in c.ranges.items()]
+            for uctl, unit, lo, hi, kind in variants:
+                for v in sorted({lo, hi, (lo + hi) // 2, min(hi, lo + 1)}):
+                    ctx.case()
+                    mod = cls()
+                    if uctl:
+                        setattr(mod, uctl, getattr(cls.controllers[uctl].value_type, unit))
+                    setattr(mod, c.name, v)
+                    want = expected_raw(kind, lo, v)
+                    rec = {"entity": "%s.%s" % (name, c.name) + ("[%s]" % unit if unit else ""), "unit": unit, "value": v, "file": True}
+                    sdata = Synth(mod).read()
+                    got_s = cvals_in(sdata, False)
+                    p = Project()
+                    p.attach_module(mod)
+                    pdata = p.read()
+                    got_p = cvals_in(pdata, True)
+                    ok = len(got_s) > ordinal and got_s[ordinal] == want and len(got_p) > ordinal and got_p[ordinal] == want
+                    ctx.check(ok, "C10.file.cval", "%s=%d: file holds %r (synth) / %r (project), expected %d" % (rec["entity"], v, got_s[ordinal : ordinal + 1], got_p[ordinal : ordinal + 1], want), key="C10.file.cval:" + rec["entity"], recipe=rec)
+                    b1 = getattr(read_sunvox_file(BytesIO(sdata)).module, c.name)
+                    b2 = getattr(read_sunvox_file(BytesIO(pdata)).modules[1], c.name)
+                    ctx.check(b1 == v and b2 == v, "C10.file.back", "%s=%d: loads as %r (synth) / %r (project)" % (rec["entity"], v, b1, b2), key="C10.file.back:" + rec["entity"], recipe=rec)
+                    if lo < 0 or uctl:
+                        ctx.mark_nontrivial(["file", rec["entity"], v])
+        ctx.sample({"axis": name, "kind": "file_cvals", "controllers": len(mt.controllers)})
+    ctx.label("file_cvals")
+    if not desc.get("mapped"):
+        return
+    # mapped user-defined controllers of a MetaModule
+    targets = [("Amplifier", "balance"), ("Amplifier", "volume"), ("Amplifier", "bipolar_dc_offset"), ("Generator", "panning"), ("Lfo", "amplitude")]
+    for tname, cname in targets:
+        tc = spec[tname].ctl(cname)
+        tcls = classes[spec[tname].mtype]
+        ci = [x.name for x in spec[tname].controllers].index(cname)
+        for v in sorted({tc.min, tc.max, (tc.min + tc.max) // 2, tc.min + 1, tc.default}):
+            for path in ("synth", "project", "clone"):
+                ctx.case()
+                mm = m.MetaModule()
+                mm.project.new_module(tcls)
+                mm.mappings.values[0] = mm.Mapping((1, ci))
+                mm.user_defined_controllers = 1
+                mm.update_user_defined_controllers()
+                want = expected_raw("range", tc.min, v)
+                mm.set_raw("user_defined_1", want)  # the value arrives as a stored value, the embedded controller keeps its own
+                rec = {"entity": "MetaModule.user_defined_1->%s.%s" % (tname, cname), "value": v, "path": path}
+                held = mm.user_defined_1
+                ctx.check(held == v and mm.get_raw("user_defined_1") == want, "C10.mapped.set_raw", "%s: set_raw(%d) reads %r / get_raw %r, expected %d / %d" % (rec["entity"], want, held, mm.get_raw("user_defined_1"), v, want), key="C10.mapped.set_raw:" + rec["entity"], recipe=rec)
+                if path == "synth":
+                    data = Synth(mm).read()
+                    got = cvals_in(data, False)
+                    back = read_sunvox_file(BytesIO(data)).module
+                elif path == "project":
+                    p = Project()
+                    p.attach_module(mm)
+                    data = p.read()
+                    got = cvals_in(data, True)
+                    back = read_sunvox_file(BytesIO(data)).modules[1]
+                else:
+                    got = None
+                    back = mm.clone()
+                if got is not None:
+                    ctx.check(len(got) > 5 and got[5] == want, "C10.mapped.file", "%s=%d (%s): file holds %r, expected %d" % (rec["entity"], v, path, got[5:6], want), key="C10.mapped.file:" + rec["entity"], recipe=rec)
+                ctx.check(back.user_defined_1 == v, "C10.mapped.back", "%s=%d (%s): comes back as %r" % (rec["entity"], v, path, back.user_defined_1), key="C10.mapped.back:" + rec["entity"], recipe=rec)
+                ctx.mark_nontrivial(["mapped", rec["entity"], v, path])
+    ctx.label("mapped_user_defined_stored_value")
+
+
 def run_shard(ctx, desc):
     import rv.modules as m
 
+    if desc.get("kind") == "file_cvals":
+        run_file_cvals(ctx, desc)
+        return
     classes = dict(m.MODULE_CLASSES)
     for ax, seg in desc["items"]:
         run_axis(ctx, classes, tuple(ax), seg)
@@ -285,6 +393,13 @@ def replay(ctx, doc):
 
     r = doc["recipe"]
     ent = r["entity"]
+    if r.get("file") or "->" in ent:
+        c2 = Ctx(ctx.prop, ctx.tier, ctx.seed, 0, 1, [])
+        run_file_cvals(c2, {"types": [ent.split(".")[0]] if "->" not in ent else [], "mapped": "->" in ent})
+        for f in c2.failures:
+            if f["recipe"].get("entity") == ent:
+                raise PropertyViolation(f["sub_oracle"], f["detail"], f["key"])
+        return
     base = ent.split("[")[0]
     name, cname = base.split(".", 1)
     for ax in list(axes()) + [("MetaModule", "user_defined_%d" % k, "userdef", None, None, 0, 44100) for k in (1, 48, 96)]:
